@@ -604,12 +604,13 @@ pub fn instr_drive(args: &[String]) {
     let crafted: Vec<P> = if profile == "hosttry" {
         (249..258).map(|depth: i64| {
             let f = |name: &str, params: &[&str], body: Vec<C>| F { name: name.into(), params: params.iter().map(|x| x.to_string()).collect(), body };
-            P { fns: vec![f("main", &[], vec![setv("keep", int(5)), setg("r", call("rec", vec![int(depth)])), setg("k", read("keep"))]),
-                          f("rec", &["n"], vec![card("IfTrue", vec![card("Less", vec![int(0), read("n")]),
-                                                                   card("Return", vec![card("Add", vec![int(1), call("rec", vec![card("Sub", vec![read("n"), int(1)])])])])]),
-                                                setv("l", int(3)),
-                                                setg("t", native("try1", vec![closure(&["p"], vec![card("Return", vec![card("Add", vec![read("p"), int(1)])])]), int(40)])),
-                                                card("Return", vec![read("l")])])],
+            // (the recursion keeps nothing on the value stack: the countdown lives in a global)
+            P { fns: vec![f("main", &[], vec![setv("keep", int(5)), setg("cnt", int(depth)), setg("r", call("rec", vec![])), setg("k", read("keep"))]),
+                          f("rec", &[], vec![setg("cnt", card("Sub", vec![read("cnt"), int(1)])),
+                                             card("IfTrue", vec![card("Less", vec![int(0), read("cnt")]), card("Return", vec![call("rec", vec![])])]),
+                                             setg("t", native("try1", vec![closure(&["p"], vec![card("Return", vec![card("Add", vec![read("p"), int(1)])])]), int(40)])),
+                                             setg("after", int(1)),
+                                             card("Return", vec![int(3)])])],
                 natives: vec![], imports: vec![] }
         }).collect()
     } else {
